@@ -94,8 +94,57 @@ ASSIGN = {
 }
 
 
+# treeNext(m, d, i, iter): the generic scan over row i of the constraint Jacobian returns the tree of the first entry (from the
+# iterator position on) whose tree differs from the previous one, or -2 when every remaining entry belongs to the previous tree.
+# Model invariant used by the dense branch: the dofs of a tree are one contiguous block.
+TREE_BLOCKS = ('forall(lambda q: implies(0 <= q and q < m.nv, 0 <= m.dof_treeid[q] and m.dof_treeid[q] < m.ntree and '
+               'm.tree_dofadr[m.dof_treeid[q]] <= q and q < m.tree_dofadr[m.dof_treeid[q]] + m.tree_dofnum[m.dof_treeid[q]])) and '
+               'forall(lambda t, q: implies(0 <= t and t < m.ntree and m.tree_dofadr[t] <= q and q < m.tree_dofadr[t] + m.tree_dofnum[t], 0 <= q and q < m.nv and m.dof_treeid[q] == t))')
+NEXT_DEFS = {
+    'IDX0': 'old(iter.jac_idx)', 'PREV': 'old(iter.tree_prev)',
+    'NNZ': 'd.efc_J_rownnz[i]', 'COL': 'lambda k: d.efc_J_colind[d.efc_J_rowadr[i] + k]',
+    'TS': 'lambda k: m.dof_treeid[COL(k)]',                       # tree of the k-th stored entry of the sparse row
+    'NZ': 'lambda k: not fpEQ(d.efc_J[m.nv * i + k], fp(0.0))',   # dense row entry k is non-zero
+}
+
+
+def tree_next(sparse):
+    req = {'sizes': '0 <= m.nv and m.nv < 2**15 and 0 <= m.ntree and m.ntree < 2**15 and 0 <= i and i < NEFC and NEFC < 2**15',
+           'generic_scan_mode': 'iter.trees[0] == -2 and iter.jac_idx >= 0', 'jacobian_layout': 'SPARSE == %d' % (1 if sparse else 0),
+           'tree_blocks': TREE_BLOCKS}
+    if sparse:
+        req['row'] = ('iter.jac_idx <= NNZ and 0 <= NNZ and 0 <= d.efc_J_rowadr[i] and d.efc_J_rowadr[i] + NNZ <= NJ and NJ < 2**30 and '
+                      'forall(lambda k: implies(0 <= k and k < NNZ, 0 <= COL(k) and COL(k) < m.nv))')
+        ens = {'exhausted_means_only_the_previous_tree_remains': 'implies(result == -2, forall(lambda k: implies(IDX0 <= k and k < NNZ, TS(k) == PREV)))',
+               'found_the_first_entry_of_another_tree': 'implies(result != -2, IDX0 <= iter.jac_idx and iter.jac_idx < NNZ and result == TS(iter.jac_idx) and result != PREV and '
+                                                        'iter.tree_prev == result and forall(lambda k: implies(IDX0 <= k and k < iter.jac_idx, TS(k) == PREV)))'}
+        loops = {0: {'invariant': {'scan': 'IDX0 <= j and j <= NNZ and tree_next == -2 and rownnz == NNZ', 'skipped': 'forall(lambda k: implies(IDX0 <= k and k < j, TS(k) == PREV))'}}}
+    else:
+        req['row'] = 'iter.jac_idx <= m.nv and m.nv * NEFC <= NJ and NJ < 2**30'
+        ens = {'exhausted_means_only_the_previous_tree_remains': 'implies(result == -2, forall(lambda k: implies(IDX0 <= k and k < m.nv and NZ(k), m.dof_treeid[k] == PREV)))',
+               'found_the_first_entry_of_another_tree': 'implies(result != -2, IDX0 <= iter.jac_idx and iter.jac_idx < m.nv and NZ(iter.jac_idx) and result == m.dof_treeid[iter.jac_idx] and '
+                                                        'result != PREV and iter.tree_prev == result and forall(lambda k: implies(IDX0 <= k and k < iter.jac_idx and NZ(k), m.dof_treeid[k] == PREV)))'}
+        loops = {1: {'invariant': {'scan': 'IDX0 <= j and j <= m.nv and tree_next == -2 and nv == m.nv', 'skipped': 'forall(lambda k: implies(IDX0 <= k and k < j and NZ(k), m.dof_treeid[k] == PREV))'}}}
+    return {
+        'ghost_params': {'NEFC': 'int', 'NJ': 'int', 'SPARSE': 'int'},
+        'params': {'m': {'n': 1, 'ptrfields': {'dof_treeid': {'len': 'm.nv'}, 'tree_dofadr': {'len': 'm.ntree'}, 'tree_dofnum': {'len': 'm.ntree'}}},
+                   'd': {'n': 1, 'ptrfields': {'efc_J_rownnz': {'len': 'NEFC'}, 'efc_J_rowadr': {'len': 'NEFC'}, 'efc_J_colind': {'len': 'NJ'}, 'efc_J': {'len': 'NJ'}}},
+                   'iter': {'n': 1}},
+        'defs': NEXT_DEFS, 'requires': req, 'assigns': ['iter.*nonptr'], 'ensures': ens, 'loops': loops, 'no_error': True, 'prune_ms': 500,
+        'ghost_args': {'mj_isSparse': {'SPARSE': 'SPARSE'}},
+    }
+
+
+IS_SPARSE = {'assumed': True, 'ghost_params': {'SPARSE': 'int'}, 'requires': {}, 'assigns': [], 'pure': True,
+             'ensures': {'the_layout_in_use': 'result == SPARSE'}}      # mj_isSparse(m): the Jacobian layout of this model (named by a ghost)
+
+
 def contracts():
     return {'__defs__': DEFS, 'mj_dsuRoot': ROOT, 'mj_dsuMerge': MERGE, 'mj_dsuAssign': ASSIGN}
+
+
+def next_contracts(sparse):
+    return {'__defs__': {}, 'treeNext': tree_next(sparse), 'mj_isSparse': IS_SPARSE}
 
 
 CONTRACTS = contracts()
